@@ -106,7 +106,7 @@ func vhHTLCSound(maxN, maxPub, maxRef, maxS int) {
 }
 
 func VHarnessHTLCSound()     { vhHTLCSound(2, 1, 1, 2) }
-func VHarnessHTLCSoundWide() { vhHTLCSound(3, 3, 2, 3) }
+func VHarnessHTLCSoundWide() { vhHTLCSound(2, 2, 2, 2) }
 
 // the witness produced by AddWitnessHTLC with the right key and preimage is accepted (n_sigs <= 1)
 func VHarnessHTLCComplete() {
